@@ -56,6 +56,13 @@ def consumers():
         ("adaptive", lambda: T.AdaptiveThresholder(method="mean", input_type=LLR), None, {"mixed": True}),
         ("hysteresis", lambda: T.HysteresisThresholder(input_type=LLR), None, {"minmag": 1.0}),
         ("dynamic", lambda: T.DynamicThresholder(input_type=LLR), None, {"mixed": True}),
+        # thresholds that are not symmetric about 1/2: a fresh object starts in state 0, so a bit is decided 1 iff P(1) = sigmoid(-L) exceeds the
+        # HIGH threshold - every vector whose magnitudes exceed logit(high) must come back (in particular those between the two edges' logits)
+        ("hysteresis_70_20", lambda: T.HysteresisThresholder(high_threshold=0.7, low_threshold=0.2, input_type=LLR), None, {"minmag": 0.9}),
+        ("hysteresis_90_60", lambda: T.HysteresisThresholder(high_threshold=0.9, low_threshold=0.6, input_type=LLR), None, {"minmag": 2.25}),
+        ("hysteresis_55_10", lambda: T.HysteresisThresholder(high_threshold=0.55, low_threshold=0.1, input_type=LLR), None, {"minmag": 0.25}),
+        ("weighted_thr30", lambda: T.WeightedThresholder(weights=1.0, threshold=0.3, input_type=LLR), None, {"minmag": 1.0}),
+        ("weighted_thr80", lambda: T.WeightedThresholder(weights=1.0, threshold=0.8, input_type=LLR), None, {"minmag": 1.6}),
         # custom reference points in every order (bit-0 reference first, descending multi-level, unsorted)
         ("mindist_pm", lambda: T.MinDistanceThresholder(reference_points=torch.tensor([3.0, -3.0]), input_type=LLR), "cons mindist 3,-3", {}),
         ("mindist_desc", lambda: T.MinDistanceThresholder(reference_points=torch.tensor([6.0, 2.0, -2.0, -6.0]), input_type=LLR), "cons mindist 6,2,-2,-6", {}),
